@@ -183,7 +183,13 @@ def _judge_block(ctx, sides, block, why):
     def fails(lines):
         i, m = sides.run(lines)
         return i != m
-    small = ctx.ddmin(block, fails, keep_prefix=1) if len(block) <= 120 else block
+    # while minimising a block that already fails, a request that never returns is given 3 s instead of 20 s
+    # (the minimised block is run again with the generous watchdog below)
+    os.environ["TMPL_WATCHDOG_MS"] = "3000"
+    try:
+        small = ctx.ddmin(block, fails, keep_prefix=1) if len(block) <= 120 else block
+    finally:
+        os.environ.pop("TMPL_WATCHDOG_MS", None)
     impl, model = sides.run(small)
     ann = []
     for l, x, y in zip(small, impl, model):
